@@ -55,7 +55,7 @@ def random_specs(rng, n):
                 v.fields = [Field("u8", name="fld")]
                 v.named = True
             vs.append(v)
-        out.append(EnumSpec("R%d" % k, vs, role="random", note="random"))
+        out.append(decorate(rng, EnumSpec("R%d" % k, vs, role="random", note="random")))
     return out
 
 
